@@ -6,6 +6,7 @@ import (
 	"go/token"
 	"go/types"
 	"math/bits"
+	"os"
 	"strings"
 	"time"
 
@@ -79,6 +80,7 @@ type Engine struct {
 	usedCtr      map[string]bool
 	funcsSeen    map[string]bool
 	writeMemo    map[string]*writeSet
+	logArgsMemo  map[*ssa.Function]map[ssa.Instruction]bool
 	loopInfo     map[*ssa.Function]*loopInfo
 	globalRefs   map[string]*Term
 	errs         []string
@@ -700,6 +702,14 @@ func (E *Engine) doPanic(fr *Frame, st *State, p *ssa.Panic) {
 
 func (E *Engine) exec(fr *Frame, st *State, instr ssa.Instruction) {
 	tb := E.tb
+	if E.logVarargs(fr.fn)[instr] {
+		// the argument array of a logging / metrics call: not modelled (the call has no effect on verified
+		// state), so that adding or removing a log line does not change any obligation
+		if sl, ok := instr.(*ssa.Slice); ok {
+			fr.env[sl] = tb.Fresh("logargs", E.sortOf(sl.Type(), fr.tenv))
+		}
+		return
+	}
 	switch t := instr.(type) {
 	case *ssa.DebugRef:
 		return
@@ -1271,4 +1281,99 @@ func (E *Engine) eq(a, b *Term) *Term {
 		}
 	}
 	return E.tb.Eq(a, b)
+}
+
+// logVarargs: the instructions of fn that only build the variadic argument array of calls into packages on
+// the no-effect list (logging, metrics, fmt): the array's allocation, the stores into it and its slicing.
+func (E *Engine) logVarargs(fn *ssa.Function) map[ssa.Instruction]bool {
+	if E.logArgsMemo == nil {
+		E.logArgsMemo = map[*ssa.Function]map[ssa.Instruction]bool{}
+	}
+	if m, ok := E.logArgsMemo[fn]; ok {
+		return m
+	}
+	m := map[ssa.Instruction]bool{}
+	E.logArgsMemo[fn] = m
+	for _, b := range fn.Blocks {
+		for _, in := range b.Instrs {
+			al, ok := in.(*ssa.Alloc)
+			if !ok || al.Comment != "varargs" || al.Referrers() == nil {
+				continue
+			}
+			var group []ssa.Instruction
+			good := true
+			for _, r := range *al.Referrers() {
+				switch t := r.(type) {
+				case *ssa.IndexAddr:
+					group = append(group, t)
+					if t.Referrers() == nil {
+						continue
+					}
+					for _, rr := range *t.Referrers() {
+						if st, ok := rr.(*ssa.Store); ok && st.Addr == t {
+							group = append(group, st)
+							// the boxing of the stored value, when nothing else uses it
+							if mi, ok := st.Val.(*ssa.MakeInterface); ok && mi.Referrers() != nil && len(*mi.Referrers()) == 1 {
+								group = append(group, mi)
+							}
+						} else {
+							good = false
+						}
+					}
+				case *ssa.Slice:
+					group = append(group, t)
+					if t.Referrers() == nil {
+						continue
+					}
+					for _, rr := range *t.Referrers() {
+						c, ok := rr.(ssa.CallInstruction)
+						if !ok || !E.isNoEffectCallee(c.Common()) {
+							good = false
+							continue
+						}
+						// the call itself, when it returns nothing: it reports and does nothing else
+						if call, isCall := rr.(*ssa.Call); isCall && call.Call.Signature().Results().Len() == 0 {
+							group = append(group, call)
+						}
+					}
+				case *ssa.DebugRef:
+				default:
+					good = false
+				}
+			}
+			if os.Getenv("GOVC_DEBUG_LOGARGS") != "" {
+				fmt.Fprintf(os.Stderr, "logargs %s: alloc %s good=%v group=%d\n", fn, al.Name(), good, len(group))
+			}
+			if good {
+				m[al] = true
+				for _, g := range group {
+					m[g] = true
+				}
+			}
+		}
+	}
+	return m
+}
+
+// isNoEffectCallee: the call goes into a package on the no-effect list that only reports (logging, metrics).
+func (E *Engine) isNoEffectCallee(c *ssa.CallCommon) bool {
+	var pkg *types.Package
+	if c.IsInvoke() {
+		pkg = c.Method.Pkg()
+	} else if f := c.StaticCallee(); f != nil {
+		o := originOf(f)
+		if o.Pkg != nil {
+			pkg = o.Pkg.Pkg
+		} else if o.Object() != nil {
+			pkg = o.Object().Pkg()
+		}
+	}
+	if pkg == nil {
+		return false
+	}
+	switch pkg.Path() {
+	case "istio.io/istio/pkg/log", "istio.io/istio/pkg/monitoring":
+		return true
+	}
+	return false
 }
